@@ -104,6 +104,12 @@ def _or_getattr_alternative(node, mod):
                             and isinstance(a_.value, ast.Call) and dotted(a_.value.func) == "getattr" and len(a_.value.args) >= 3 \
                             and isinstance(a_.value.args[0], ast.Name) and isinstance(a_.value.args[1], ast.Constant) and mod.imports.get(a_.value.args[0].id):
                         return "%s.%s" % (mod.imports[a_.value.args[0].id], a_.value.args[1].value)
+                    # try: v = lib.alt   except AttributeError: v = None
+                    if isinstance(a_, ast.Try) and any(h_.type is not None and "AttributeError" in norm(h_.type) for h_ in a_.handlers):
+                        for b_ in a_.body:
+                            if isinstance(b_, ast.Assign) and len(b_.targets) == 1 and isinstance(b_.targets[0], ast.Name) and b_.targets[0].id == t_.id \
+                                    and isinstance(b_.value, ast.Attribute) and isinstance(b_.value.value, ast.Name) and mod.imports.get(b_.value.value.id):
+                                return "%s.%s" % (mod.imports[b_.value.value.id], b_.value.attr)
     child, q = node, parent(node)
     while q is not None and not isinstance(q, ast.stmt):
         if isinstance(q, ast.IfExp):
@@ -176,8 +182,23 @@ def rule_argorder(ctx):
     ctxt = norm(callee)
     if isinstance(callee, ast.Name) and flow.defs(callee.id, rets[0]) not in ([], ["param"]):
         # selected on several paths: every candidate must be the trapezoidal rule
-        vals = [flow._def_value(d_, callee.id) for d_ in flow.defs(callee.id, rets[0]) if d_ != "param"]
-        if any(v is None for v in vals):
+        def leaves(name, at, depth=0):
+            out = []
+            for d_ in flow.defs(name, at):
+                if d_ == "param":
+                    continue
+                v_ = flow._def_value(d_, name)
+                if v_ is None:
+                    out.append(None)
+                elif isinstance(v_, ast.Constant) and v_.value is None:
+                    continue            # "not available": the other candidate is used then
+                elif isinstance(v_, ast.Name) and depth < 3 and flow.defs(v_.id, d_) not in ([], ["param"]):
+                    out.extend(leaves(v_.id, d_, depth + 1))
+                else:
+                    out.append(v_)
+            return out
+        vals = leaves(callee.id, rets[0])
+        if any(v is None for v in vals) or not vals:
             raise AnalysisError("integrate_column: integration routine bound in an unrecognised way")
         ctxt = " | ".join(sorted({norm(v) for v in vals}))
         is_trap = all(any(t in norm(v) for t in ("trapezoid", "trapz")) for v in vals)
@@ -512,7 +533,7 @@ def rule_p2h(ctx):
         cc = canon(cs[0])          # x.cumsum() and np.cumsum(x) alike
         if not cc.args:
             raise AnalysisError("pressure2height: cumsum without an argument")
-        arg = flow.resolve(cc.args[0], at=cs[0], depth=5, stop=(pn, tn))
+        arg = flow.resolve_join(cc.args[0], at=cs[0], depth=5, stop=(pn, tn))
         fact = norm(arg)
         P, T_, dp, r0, r1 = sp.symbols("P T dp r0 r1", positive=True)
 
